@@ -124,10 +124,12 @@ func TestC03(t *testing.T) {
 				c.Harness("tree build: %v", err)
 				return
 			}
-			ls := st.LinkSystem(true)
+			// every third tree is traversed with Reify installed as NodeReifier as well (blocks then arrive reified)
+			ls := st.LinkSystemCfg(true, i%3 == 1, i%3 == 2)
+			c.Count(fmt.Sprintf("linksystem_cfg_%d", i%3), 1)
 			rr := c.Rand()
 			walk := func(path string, spec selbuilder.SelectorSpec, matchPath bool) ([]matchRec, error) {
-				raw, err := loadRaw(ls, root.Cid)
+				raw, err := loadRaw(st.LinkSystem(false), root.Cid)
 				if err != nil {
 					return nil, fmt.Errorf("harness: %w", err)
 				}
@@ -208,7 +210,9 @@ func TestC03(t *testing.T) {
 					}
 				}
 				// ---- explore-all target: loads path blocks + the whole sub-DAG ----
-				if ni%2 == 0 {
+				// (with Reify as NodeReifier the target arrives reified, so 'explore all' walks the ADL view
+				// rather than the raw blocks; the load-set claim is judged in the other configurations)
+				if ni%2 == 0 && i%3 != 2 {
 					c.Guard("explore-all", func() {
 						st.Logging = true
 						defer func() { st.Logging = false }()
